@@ -30,7 +30,7 @@ ASSUMPTIONS = [
 
 FEAT = gen.feat(
     p_self=0.15,
-    bodies={"leaf": 3, "next": 4, "rec": 1.2, "fnext": 0.5, "next2": 1.0,
+    bodies={"next_try": 0.6, "leaf": 3, "next": 4, "rec": 1.2, "fnext": 0.5, "next2": 1.0,
             "next_other": 0.4, "rec_next": 0.5},
     ann={"d": 1.2, "h": 0.9},
     p_kw=0.1, p_optional=0.1, ncorpus=(3, 6), nmeth=(3, 6), p_dup_sig=0.1,
@@ -48,7 +48,7 @@ _META1 = {"min_ar": 1, "max_ar": 1, "flavour": ["cls"], "has_kw": False, "mixed"
 
 FIXED = {
     "chain": {
-        "spec": {"classes": _CL, "hooks": [], "deps": [], "methods": {
+        "spec": {"classes": _CL + [["K4", ["K1", "K2"], False]], "hooks": [], "deps": [], "methods": {
             "m0": _m(["o"], ["leaf"]), "m1": _m(["c", "K0"], ["next"]),
             "m2": _m(["c", "K1"], ["next2"]), "m3": _m(["c", "K2"], ["next"]),
             # K3(K1, K2): this method is the unique first rank, its call_next meets an ambiguous rank
@@ -56,7 +56,8 @@ FIXED = {
         }, "meta": _META1},
         "regs": [["m0"], ["m1"], ["m2"], ["m3"], ["m4"]],
         "calls": [{"args": [["n", "K1", 0, []]]}, {"args": [["n", "K2", 0, []]]},
-                  {"args": [["int", 1]]}, {"args": [["n", "K3", 0, []]]}],  # K3: m4, then an ambiguous rank
+                  {"args": [["int", 1]]}, {"args": [["n", "K3", 0, []]]},  # K3: m4, then an ambiguous rank
+                  {"args": [["n", "K4", 0, []]]}],  # K4(K1, K2): ambiguous at the first rank
     },
     "dep": {
         "spec": {"classes": _CL, "hooks": [{"name": "H0", "true_for": ["K0", "K1", "K3"]}],
@@ -102,6 +103,8 @@ FIXED_SHAPES = {
     # racing a call whose resolution ends in the ambiguity error (chain world only)
     "S6_ambiguous_same": (2, 3, 3),
     "S7_ambiguous_cold": (None, 3, 3),
+    "S8_ambiguous_first_rank": (2, 4, 4),
+    "S9_ambiguous_first_rank_cold": (None, 4, 4),
 }
 
 
